@@ -21,6 +21,8 @@ META = {
     ),
     "assumptions": [
         "frames are hex-validated by COMMAND_REGEX before any int(x, 16) on payload slices; such ValueErrors are admitted or fenced anyway",
+        "IndexError is modelled for constant/range-bounded indexes into lists and tuples (seqlen.py); indexes into str/bytes are not (payload widths are fixed by the per-code regexes)",
+        "for Address values, x != NON_DEV_ADDR implies x.type != '--' (Address.__eq__ compares ids; '--:------' is the only valid id of that type)",
     ],
 }
 
@@ -46,6 +48,8 @@ def check(ctx: Ctx) -> list[RuleResult]:
         "asserts_counted_as_input_dependent": len(ea.asserts_counted),
         "asserts_walked_past_as_self_checks": len(ea.asserts_skipped),
         "table_discharges": dict(list(getattr(ctx, "_oracles").used.items())[:12]),
+        "sequence_index_sites_proven_in_bounds": sum(1 for k in ea.discharged if k[1] == "builtins.IndexError"),
+        "sequence_length_facts": dict(list(getattr(getattr(ea, "_seqlen", None), "used", {}).items())[:12]),
     }
     out.append(r1)
 
